@@ -3,9 +3,9 @@ import sys
 
 from props import _cluster
 
-THEOREMS = []
-PARTIAL = {}
-LEAN_MODULES = ["XmlDiffModel.Props.C01"] if THEOREMS else []
+THEOREMS = ['XmlDiffModel.C01_patch_reproduces_working_copy', 'XmlDiffModel.C01_final_wf', 'XmlDiffModel.C05_strict_refines_to_shipped']
+PARTIAL = {'C01_roundtrip (full statement)': 'proved: the shipped patcher accepts the script and reproduces the differ\'s final working copy, for every matching; NOT proved: that working copy equals the right document (script-generation invariant) - compared per case by U5 and the round-trip oracle'}
+LEAN_MODULES = ['XmlDiffModel.Props.Replay', 'XmlDiffModel.Props.C05']
 SOURCES = ['diff.Differ.match', 'diff.Differ.diff', 'diff.Differ.node_ratio', 'diff.Differ.find_pos', 'diff.Differ.align_children', 'diff.Differ.update_node_attr', 'diff.Differ.update_node_text', 'diff.Differ.update_node_tag', 'patch.Patcher', 'utils.getpath', 'utils.longest_common_subsequence']
 RULE = "Differ cluster: seeded random document pairs (60% mutation chains of the left document, 40% independent, a duplicate-heavy stream) x random diff options (F, ratio_mode, fast/best match, uniqueattrs); each case: real Differ.match/diff and Patcher vs. the Lean model (U1 getpath/xpath, U2 patcher, U4 matching, U5 script generation, end-to-end), then the round-trip oracle patch_tree(diff_trees(L,R),L) == R under the property's equality. Non-trivial = script has >= 2 action types or a move; distinct by (L, R, options)."
 ASSUMPTIONS = [
